@@ -374,11 +374,25 @@ def additivity(ctx, rng):
     what = rng.choice(['cli', 'grammar', 'analysis', 'transitions', 'read',
                        'read'])
     case['what'] = what
+    case['fmt'] = rng.choice(['export', 'brackets', 'discobrackets',
+                              'tigerxml'])
+    case['dfmt'] = rng.choice(['export', 'terminals', 'discobrackets',
+                               'brackets', 'tigerxml'])
+    case['trans'] = rng.choice([[], ['negra_mark_heads', 'binarize'],
+                                ['punctuation_verylow']])
+    case['mode'] = rng.choice([None, {'v': 1, 'h': 1}])
+    case['system'] = rng.choice(['topdown', 'inorder'])
+    additive_case(ctx, case, tmp)
+
+
+def additive_case(ctx, case, tmp):
+    R = ctx.R
+    A, B, what = case['A'], case['B'], case['what']
 
     def run(op):
         return norm(c18_ops.execute(R, op, tmp, set()))
     if what == 'read':
-        fmt = rng.choice(['export', 'brackets', 'discobrackets', 'tigerxml'])
+        fmt = case['fmt']
         enc = {'export': codec.export_encode, 'brackets': codec.brackets_encode,
                'discobrackets': codec.discobrackets_encode,
                'tigerxml': codec.tigerxml_encode}[fmt]
@@ -395,10 +409,8 @@ def additivity(ctx, rng):
                      % (str(outs[2])[-300:], str(outs[0] + outs[1])[-300:]))
             return
     elif what == 'cli':
-        dfmt = rng.choice(['export', 'terminals', 'discobrackets', 'brackets',
-                           'tigerxml'])
-        trans = rng.choice([[], ['negra_mark_heads', 'binarize'],
-                            ['punctuation_verylow']])
+        dfmt = case['dfmt']
+        trans = case['trans']
         argv = ['transform', '{src}', '{dest}', '--src-format', 'export',
                 '--dest-format', dfmt, '--src-opts', 'quiet']
         if trans:
@@ -420,7 +432,7 @@ def additivity(ctx, rng):
                      % (trans, fab[-200:], (fa + fb)[-200:]))
             return
     elif what == 'grammar':
-        mode = rng.choice([None, {'v': 1, 'h': 1}])
+        mode = case['mode']
         outs = []
         for tag, bank in (('a', A), ('b', B), ('ab', A + B)):
             outs.append(run({'k': 'grammar', 'bank': bank, 'mode': mode,
@@ -448,7 +460,7 @@ def additivity(ctx, rng):
             ctx.fail('C18:not-additive:analysis', case, repr(nums))
             return
     else:
-        system = rng.choice(['topdown', 'inorder'])
+        system = case['system']
         argv = ['transitions', '{src}', '{dest}', system, '--transform',
                 'negra_mark_heads', 'binarize', '--src-format', 'export',
                 '--src-opts', 'quiet']
@@ -503,4 +515,4 @@ def replay(ctx, case):
                      case, '%s vs %s' % (str(outs[idx[0]])[:300],
                                          str(out)[:300]))
     else:
-        print('additivity cases are re-drawn from the seed; re-run the check')
+        additive_case(ctx, case, tmp)
